@@ -15,13 +15,20 @@ def fault_plan(rng, key, kinds=("none", "fallback", "exhaust", "timeout"), kind=
         bug = {"mode": "content", "key": key,
                "arm": {"newton": rng.choice((0.05, 0.3, 1.0))}}
     elif kind == "exhaust":
+        # rare failures land somewhere in the middle of a build; frequent ones persist
+        # from one refinement iteration to the next (a failure that is retried on
+        # slightly moved points must not "heal" just because the hash changed)
         bug = {"mode": "content", "key": key,
                "arm": {"newton": rng.choice((0.3, 1.0)),
-                       "integrate": rng.choice((2e-4, 1e-3, 5e-3))}}
+                       "integrate": rng.choice((2e-4, 1e-3, 5e-3, 0.2, 1.0))}}
     elif kind == "timeout":
         opts["refine_timeout"] = rng.choice((0.5, 1.0, 10.0))
-        clk = {"key": key, "slowness": rng.choice((1.0, 10.0)),
-               "slow_prob": rng.choice((2e-4, 1e-3, 5e-3))}
+        if rng.random() < 0.35:
+            # a machine so slow that every FineContour refinement passes its deadline
+            clk = {"key": key, "slowness": rng.choice((1.0e4, 1.0e6))}
+        else:
+            clk = {"key": key, "slowness": rng.choice((1.0, 10.0)),
+                   "slow_prob": rng.choice((2e-4, 1e-3, 5e-3))}
     return kind, bug, clk, opts
 
 
